@@ -14,7 +14,8 @@ Record nobs := { no_pre : option str; no_op : nop; no_res : res nout; no_post : 
 Inductive c15case :=
 | NHist (n : nat) (steps : list nobs)
 | NParse (s : str) (out : list str)        (* [x.strip() for x in s.split(",")] *)
-| NJoin (l : list str) (out : str).        (* ", ".join(l) *)
+| NJoin (l : list str) (out : str)         (* ", ".join(l) *)
+| NWsSet (l : list Z).                     (* every code point c < 0x110000 that "x".join-free str.strip() removes: (chr(c) + "a" + chr(c)).strip() == "a" *)
 
 Definition cleanb (v : str) : bool := forallb (fun c => negb (c =? COMMA)) v && str_eqb (strip v) v.
 Definition names_at (n : nat) (p : option str) : list str := pad n (parse (match p with Some s => s | None => [] end)).
@@ -60,4 +61,7 @@ Definition c15_spec_ok (c : c15case) : bool :=
   | NHist n steps => forallb (nobs_spec_ok n) steps
   | NParse s out => list_eqb str_eqb (parse s) out
   | NJoin l out => str_eqb (join l) out
+  | NWsSet l =>
+      (* the model's whitespace predicate agrees with Python's on the whole code space *)
+      snd (Pos.iter (fun st : Z * bool => let (c, ok) := st in (c + 1, ok && Bool.eqb (is_ws c) (existsb (Z.eqb c) l))) (0, true) 1114112)
   end.
